@@ -48,6 +48,10 @@ CLAIMED['C14'] = dict(
    text="Coq theorem C14_all_interleavings_ok (closed): for every behaviour (oracle) of the interrupted student thread, of the caller's timeout handler and of the next execution, and for EVERY interleaving (inductive relation; enumeration proved complete in C14_merges_complete) of the student thread's post-termination steps with the grader's steps (handler, then next execution): no step fails, the patch and stdout stacks end empty, the timed-out execution contributes exactly one captured failure - the handler's TimeoutError - and the next execution records its own output once. Step lists are regenerated from sandbox.py/timeout.py on every run; C14_terminate_sets_flag_first proves the terminated flag is set before the SystemExit is injected. Tie: regeneration + the three guarded hooks forcing the coarse orderings (student handler before / after / inside the next run / never) on the real code for busy, printing, swallowing, converting and late-finishing programs.",
    note=SB_NOTE + " Interleavings finer than the three hook points are covered by the theorem only; CPython's delivery of the asynchronous SystemExit and the bounded return delay are runtime behaviour: measured (watchdog, wall time), not proved. Hooks: PEDAL_EDU_PEDAL_VERIF=1, /repo commit in MANIFEST.hooks.",
    technique="Coq proof over all interleavings of regenerated step lists + hook-forced schedules on the real code", design="3/C14")
+CLAIMED['C12'] = dict(
+   text="Coq theorems (props/C12.v, closed) over the skeleton of source.verify REGENERATED on every run: for EVERY parser outcome (tree, SyntaxError, IndentationError, RecursionError/MemoryError) and every branch, verify never raises; unless the file could not be loaded, exactly one syntax-category feedback is attached iff the parser returned no tree; a returned tree is stored with success=True, otherwise the empty tree with success=False; IndentationError is never reported as a plain syntax error. Line = parser line + section offset, blank-source reporting and tree identity are checked by the differential oracle against the live ast.parse on corrupted sources, whole-file and inside a section.",
+   note="Trusted: Coq kernel; T4 translator and its contract table in tools/props/c12.py (ast.parse may raise SyntaxError/IndentationError/RecursionError/MemoryError - on CPython 3.12 a NUL byte is a SyntaxError; the feedback constructors do not raise: exercised on every rejected text of the run). The parser itself is an oracle. PARTIAL: the line-number arithmetic inside syntax_error is not modelled in Coq (covered by C17's offset theorem and the differential oracle).",
+   technique="Coq proof over regenerated exception-flow skeleton + differential oracle against ast.parse", design="3/C12")
 REASONS = {}
 DEFAULT_REASON = "check not built yet (work in progress; see DESIGN.md section 6 for the order)"
 
